@@ -35,7 +35,10 @@ META = {
             "that the FEA table is addressed at its last entry, permutations "
             "of length 1 and 2 for swap_distance, two-team and odd-team game "
             "encodings, sequences of generated network controllers that "
-            "differ only in the number of outputs. A case is non-trivial when it comes from the "
+            "differ only in the number of outputs, model objectives that "
+            "pull growing training data several times, systems with "
+            "starting-state matrices of the wrong width (must be rejected "
+            "or handled inside the arrays). A case is non-trivial when it comes from the "
             "catalogue or is non-trivial under the rule of the property whose "
             "generator produced it; distinct = distinct (source, case) pairs",
     "assumptions": [
@@ -99,6 +102,9 @@ def wrap(source: str, fn: Callable[[Ctx, Any], None], catalogue: bool = False
             raise Violation(f"[{source}] out-of-bounds access under "
                             f"NUMBA_BOUNDSCHECK=1: IndexError: {e}") from e
         nontrivial = nontrivial or len(shadow.rec.nontrivial) > 0
+        if catalogue:
+            for k, v in shadow.rec.labels.items():
+                ctx.rec.label(f"catalogue.{k}", v)
         for k, v in shadow.rec.inconclusive.items():
             ctx.rec.inconclusive[k] = ctx.rec.inconclusive.get(k, 0) + v
         ctx.rec.case({"source": source, "case": case}, nontrivial=nontrivial,
@@ -450,10 +456,88 @@ def check_ann(ctx: Ctx, case: dict) -> None:
         require(bool(np.all(np.isfinite(out))), f"non-finite output {out}")
 
 
+def dc_catalogue() -> list[dict]:
+    """Dynamic-control sequences: (a) a model objective that pulls its
+    training data several times while the real objective keeps collecting
+    (growing data sets between two begin() calls); (b) systems whose
+    starting-state matrices have the wrong width - the constructor has to
+    reject them, if it accepts them the kernels must still stay inside
+    their arrays."""
+    cases = []
+    for name in ("stuart_landau", "lorenz", "three_coupled_oscillators"):
+        for evals in ([1, 2], [2, 1, 3], [1, 1, 4]):
+            cases.append({"kind": "model_objective", "system": name,
+                          "evals": evals})
+        for which in ("training", "test"):
+            for delta in (-1, 1):
+                cases.append({"kind": "system_shape", "system": name,
+                              "which": which, "delta": delta})
+    return cases
+
+
+def _dc_small(name: str) -> Any:
+    from vf.props.c12 import small_system
+    return small_system({"system": name, "training": 2, "steps": 12,
+                         "time": 0.5})
+
+
+def check_dc(ctx: Ctx, case: dict) -> None:
+    import numpy as np
+    from moptipyapps.dynamic_control.controllers.ann import make_ann
+    from moptipyapps.dynamic_control.instance import Instance
+    from moptipyapps.dynamic_control.model_objective import ModelObjective
+    from moptipyapps.dynamic_control.objective import FigureOfMerit
+    from moptipyapps.dynamic_control.system import System
+    from moptipyapps.dynamic_control.system_model import SystemModel
+    base = _dc_small(case["system"])
+    sd, cd = base.state_dims, base.control_dims
+    controller = make_ann(sd, cd, [sd])
+    if case["kind"] == "model_objective":
+        inst = SystemModel(base, controller, make_ann(sd + cd, sd, [sd]))
+        real = FigureOfMerit(inst, True)
+        real.initialize()
+        mo = ModelObjective(real, inst.model)
+        x = np.linspace(-0.2, 0.2, controller.param_dims)
+        q = np.linspace(-0.1, 0.1, inst.model.param_dims)
+        for k, n_eval in enumerate(case["evals"]):
+            for e in range(n_eval):
+                real.evaluate(x * (1.0 + 0.25 * (k + e)))
+            mo.begin()  # documented: pulls the data, allocates accordingly
+            v = mo.evaluate(q)
+            require(v >= 0.0 or v != v, f"model objective value {v}")
+        mo.end()
+        return
+    # a system whose test/training states have state_dims +- 1 columns
+    good_test = np.array(base.test_starting_states, dtype=float)
+    good_train = np.array(base.training_starting_states, dtype=float)
+
+    def resize(a: Any) -> Any:
+        if case["delta"] < 0:
+            return np.ascontiguousarray(a[:, :-1])
+        return np.hstack((a, np.ones((len(a), 1))))
+
+    test = resize(good_test) if case["which"] == "test" else good_test
+    train = resize(good_train) if case["which"] == "training" else good_train
+    try:
+        bad = System("bad", sd, cd, base.state_dim_mod, base.state_dims_in_j,
+                     base.gamma, test, train, base.test_steps,
+                     base.test_time, base.training_steps, base.training_time,
+                     (0,))
+    except (ValueError, TypeError):
+        ctx.rec.label("malformed_system_rejected")
+        return
+    ctx.rec.label("malformed_system_accepted")
+    bad.equations = base.equations  # type: ignore
+    f = FigureOfMerit(Instance(bad, controller))
+    f.initialize()
+    f.evaluate(np.linspace(-0.2, 0.2, controller.param_dims))
+
+
 def check_catalogue(ctx: Ctx, case: dict) -> None:
     kind = case["kind"]
     fn = {"ttp": check_ttp, "bp": check_bp, "mat": check_mat,
-          "swap": check_misc, "game": check_misc, "ann": check_ann}[kind]
+          "swap": check_misc, "game": check_misc, "ann": check_ann,
+          "model_objective": check_dc, "system_shape": check_dc}[kind]
     fn(ctx, case)
 
 
@@ -485,7 +569,7 @@ def run(ctx: Ctx) -> None:
     if not numba.config.BOUNDSCHECK:
         raise RuntimeError("NUMBA_BOUNDSCHECK is not active")
     cat = ttp_catalogue() + bp_catalogue() + mat_catalogue() \
-        + misc_catalogue() + ann_catalogue()
+        + misc_catalogue() + ann_catalogue() + dc_catalogue()
     n = ctx.each("catalogue", ctx.my_share(cat), SUBS["catalogue"],
                  max_violations=3)
     ctx.rec.subreport("catalogue", cases_run=n,
